@@ -170,7 +170,13 @@ func (x *run) querySet(views []*model.BugView, people map[string]model.Person, s
 	for _, id := range pids {
 		p := people[id]
 		qs = append(qs, withSort(model.Q{Author: []string{strings.ToUpper(p.Name)}}), withSort(model.Q{Actor: []string{id[:8]}}),
-			withSort(model.Q{Participant: []string{p.Name}}))
+			withSort(model.Q{Participant: []string{p.Name}}),
+			// id prefixes are matched case-insensitively as well
+			withSort(model.Q{Author: []string{strings.ToUpper(id[:9])}}), withSort(model.Q{Participant: []string{strings.ToUpper(id[:7])}}),
+			withSort(model.Q{Actor: []string{strings.ToUpper(id[:12])}}))
+		if p.Login != "" {
+			qs = append(qs, withSort(model.Q{Actor: []string{strings.ToUpper(p.Login)}}))
+		}
 	}
 	if len(pids) >= 2 {
 		qs = append(qs, withSort(model.Q{Author: []string{people[pids[0]].Name, people[pids[1]].Name}}),
